@@ -237,8 +237,10 @@ pub fn minimise(prop: &str, clause: &str, t: &Trace, scratch: &Scratch) -> (Trac
                 Some(l) => l.clone(),
                 None => return (t.clone(), false),
             };
-            // does the last trace fail on its own? then the history is not needed
-            if still(prop, clause, &last, scratch) {
+            // does the last trace fail on its own? then the history is not needed. Asked of a fresh
+            // process: this one has already executed the history (process-wide state such as a cache
+            // inside the library would make the answer "yes" for the wrong reason)
+            if crate::runner::reproduces_in_fresh_process(prop, clause, &last) {
                 let (m, _) = minimise(prop, clause, &last, scratch);
                 return (m, true);
             }
